@@ -160,6 +160,45 @@ pub fn ref_keys(set: u8) -> Vec<KeyCode> {
     TABLE.iter().filter(|(_, s1, s2)| if set == 1 { s1.is_some() } else { s2.is_some() }).map(|(k, _, _)| *k).collect()
 }
 
+// ---- README extension rows: keys added to the crate *and* to its README after this harness was written ----
+
+/// (key name, Set 1 entry, Set 2 entry) for README rows whose key name is not among the 124 embedded keys and
+/// whose codes do not collide with an embedded entry. Filled once by `load_readme_extras`.
+static EXTRAS: std::sync::OnceLock<Vec<(String, Option<(u8, u8)>, Option<(u8, u8)>)>> = std::sync::OnceLock::new();
+
+pub fn load_readme_extras(repo: &str) -> usize {
+    let mut v = vec![];
+    if let Ok(s) = std::fs::read_to_string(format!("{}/README.md", repo)) {
+        let mut in_table = false;
+        for line in s.lines() {
+            if line.starts_with("| Symbolic Key") {
+                in_table = true;
+                continue;
+            }
+            if !in_table || !line.starts_with('|') {
+                continue;
+            }
+            let cells: Vec<&str> = line.trim_matches('|').split('|').map(|c| c.trim()).collect();
+            if cells.len() != 3 || cells[0] == "-" || cells[0].starts_with("---") || crate::common::key_by_name(cells[0]).is_some() {
+                continue;
+            }
+            let (Some(s1), Some(s2)) = (parse_code(cells[1]), parse_code(cells[2])) else { continue };
+            let free1 = s1.map_or(true, |(t, c)| ref_lookup(1, t, c).is_none() && !(t == PLAIN && (c >= 0x80 || c == 0x60 || c == 0x61)));
+            let free2 = s2.map_or(true, |(t, c)| ref_lookup(2, t, c).is_none() && !matches!(c, 0xE0 | 0xE1 | 0xF0));
+            if free1 && free2 && cells[0].chars().all(|c| c.is_ascii_alphanumeric()) {
+                v.push((cells[0].to_string(), s1, s2));
+            }
+        }
+    }
+    let n = v.len();
+    let _ = EXTRAS.set(v);
+    n
+}
+
+fn extra_lookup(set: u8, table: u8, code: u8) -> Option<String> {
+    EXTRAS.get()?.iter().find(|(_, s1, s2)| (if set == 1 { *s1 } else { *s2 }) == Some((table, code))).map(|(n, _, _)| n.clone())
+}
+
 // ---- R-AUTO: prefix automata ---------------------------------------------------------------
 
 /// Reference prefix context of Set 2: (table, break-prefix seen).
@@ -181,6 +220,9 @@ pub enum Allowed {
     Unknown,
     /// the statement is silent (F0 00 / F0 AA): an Up or SingleShot of that status key, or UnknownKeyCode
     Loose(KeyCode),
+    /// a key the embedded table does not know but the repository's own README conversion table defines
+    /// (a key added after this harness was written): exactly that key, identified by its Debug name
+    EventNamed(String, KeyState),
 }
 
 impl Allowed {
@@ -190,6 +232,7 @@ impl Allowed {
             Allowed::Event(k, s) => format!("Ok({:?} {:?})", k, s),
             Allowed::Unknown => "Err(UnknownKeyCode)".into(),
             Allowed::Loose(k) => format!("Ok({:?} Up|SingleShot) or Err(UnknownKeyCode)", k),
+            Allowed::EventNamed(n, s) => format!("Ok({} {:?})", n, s),
         }
     }
     pub fn admits(&self, r: &Result<Option<pc_keyboard::KeyEvent>, pc_keyboard::Error>) -> bool {
@@ -200,6 +243,7 @@ impl Allowed {
             (Allowed::Unknown, Err(Error::UnknownKeyCode)) => true,
             (Allowed::Loose(k), Ok(Some(e))) => e.code == *k && (e.state == KeyState::Up || e.state == KeyState::SingleShot),
             (Allowed::Loose(_), Err(Error::UnknownKeyCode)) => true,
+            (Allowed::EventNamed(n, s), Ok(Some(e))) => format!("{:?}", e.code) == *n && e.state == *s,
             _ => false,
         }
     }
@@ -230,7 +274,10 @@ pub fn auto2(c: Ctx2, b: u8) -> (Allowed, Ctx2) {
             }
         }
         Some(k) => Allowed::Event(k, if c.brk { KeyState::Up } else { KeyState::Down }),
-        None => Allowed::Unknown,
+        None => match extra_lookup(2, c.table, b) {
+            Some(n) => Allowed::EventNamed(n, if c.brk { KeyState::Up } else { KeyState::Down }),
+            None => Allowed::Unknown,
+        },
     };
     (a, CTX2_INIT)
 }
@@ -247,7 +294,10 @@ pub fn auto1(table: u8, b: u8) -> (Allowed, u8) {
     let st = if b & 0x80 != 0 { KeyState::Up } else { KeyState::Down };
     let a = match ref_lookup(1, table, code) {
         Some(k) => Allowed::Event(k, st),
-        None => Allowed::Unknown,
+        None => match extra_lookup(1, table, code) {
+            Some(n) => Allowed::EventNamed(n, st),
+            None => Allowed::Unknown,
+        },
     };
     (a, PLAIN)
 }
